@@ -37,6 +37,9 @@ const (
 	c01DrainD       = 60 * time.Second // bounded-delivery deadline after healing (DESIGN §6 C01)
 	c01DrainGrace   = 60 * time.Second // extension granted only while inserts still make progress
 	c01ProgressSpan = 20 * time.Second
+
+	c01StallGap        = 3 * time.Second  // the 250 ms drain loop was not scheduled for this long: the process was frozen
+	c01QuietAfterStall = 35 * time.Second // > MaxConveyorDelay (24 s deadline of an in-flight recent send) of normally scheduled time
 	c01Cluster      = "verif"
 )
 
@@ -1094,8 +1097,31 @@ func c01RunScenario(r *verifkit.Run, aggBin string, sc *c01Scenario, rnd *rand.R
 	lastMissing, lastProgress := -1, healed
 	extended := false
 	lastProbe := time.Time{}
+	// starvation guard: a recent send that is in flight is invisible to the snapshots (no disk id yet) and lives
+	// for at most MaxConveyorDelay of *scheduled* time.  When this loop itself is not scheduled for seconds, the
+	// whole process was frozen, timers (the send deadline) did not fire either, and "held nowhere" means nothing:
+	// the drain is then prolonged (a few times) until c01QuietAfterStall of normally scheduled time has passed.
+	lastIter, lastStall, stalls, prolonged := time.Now(), time.Time{}, 0, 0
+	var maxGap time.Duration
 	for {
 		time.Sleep(250 * time.Millisecond)
+		if gap := time.Since(lastIter); gap > c01StallGap {
+			lastStall = time.Now()
+			stalls++
+			if gap > maxGap {
+				maxGap = gap
+			}
+			if prolonged < 4 {
+				prolonged++
+				if t := lastStall.Add(c01QuietAfterStall + 5*time.Second); t.After(deadline) {
+					deadline = t
+				}
+				if t := deadline.Add(c01DrainGrace); t.After(hard) {
+					hard = t
+				}
+			}
+		}
+		lastIter = time.Now()
 		if time.Since(lastProbe) >= time.Second {
 			// probe rows measure whether fresh data flows with normal latency while the drain waits
 			lastProbe = time.Now()
@@ -1108,6 +1134,7 @@ func c01RunScenario(r *verifkit.Run, aggBin string, sc *c01Scenario, rnd *rand.R
 		if m == 0 {
 			break
 		}
+		lastIter = time.Now() // pending() itself may be slow under load: only the sleep overshoot counts as a stall
 		now := time.Now()
 		if now.After(hard) {
 			break
@@ -1122,7 +1149,9 @@ func c01RunScenario(r *verifkit.Run, aggBin string, sc *c01Scenario, rnd *rand.R
 	}
 	e.obs.drainMs = time.Since(healed).Milliseconds()
 	e.obs.extended = extended
-	e.logf("drain over after %d ms, pending %d", e.obs.drainMs, lastMissing)
+	e.obs.stalls, e.obs.maxStallMs = stalls, maxGap.Milliseconds()
+	e.obs.starved = !lastStall.IsZero() && time.Since(lastStall) < c01QuietAfterStall
+	e.logf("drain over after %d ms, pending %d, harness stalls %d (max %v, starved=%v)", e.obs.drainMs, lastMissing, stalls, maxGap, e.obs.starved)
 	close(stopSnap)
 	wg.Wait()
 	e.agentMu.RLock()
